@@ -1,6 +1,6 @@
 (* C07 driver.  One case per line:
      case TAB v_rm TAB v_init TAB path(,) TAB names(,);versions(,);tags(,);flavors(,);usertags(,);user=tag,tag+user=tag,tag TAB proc|proc|...
-          TAB v_uloc TAB v_ustale TAB v_noread TAB v_shared
+          TAB v_uloc TAB v_ustale TAB v_noread TAB v_shared TAB v_foreign (1: a flavor the stack was not loaded for is answered: not declared)
    proc = P;user;admin;flavor;crash;q;op&op&...      crash = ~ or i,g,b     q = 0/1    admin = 0/1
         | X;loc;stack;flavor                  an outside deletion of a cache file
    op   = an operation in the format of the C06 driver, or  DC,loc,stack,flavor
@@ -77,14 +77,15 @@ let show_loaded (m : (ascii list * pstack) list) : Stdlib.String.t =
   cat ";" (Stdlib.List.map (fun (s, ps) ->
     enc_str s ^ "=" ^ cat "," (Stdlib.List.map (fun (f, _) -> enc_str f) ps.ps_lookup)) m)
 
-let answers (path, names, versions, tags) (utags : ascii list list) (own : ascii list list) (u : ascii list) (qfl : ascii list list) (w : world)
+let answers (pin_foreign : bool) (path, names, versions, tags) (utags : ascii list list) (own : ascii list list) (u : ascii list) (qfl : ascii list list) (w : world)
     (m : (ascii list * pstack) list) : Stdlib.String.t =
   let out = ref [] in
   let add l = out := cat "," l :: !out in
   (* user tags.  Through the cache: the user:t entries of the loaded families.  From the files: product.tags lists
      user:t for the chain files of the tag directory (UH); findTaggedProduct(t) reads a chain file of that name
      among the stack's own first, then the tag directory (UT, UG) *)
-  let umodes = [("c", (fun q -> uq_cache m q), (fun q -> uq_cache m q));
+  let ucache q = if pin_foreign then uq_cache m q else uq_served w m u q in
+  let umodes = [("c", ucache, ucache);
                 ("f", (fun q -> uq_db w u q), (fun q -> uq_files w u q))] in
   Stdlib.List.iter (fun (mode, askh, askt) ->
     Stdlib.List.iter (fun n -> Stdlib.List.iter (fun f -> Stdlib.List.iter (fun t ->
@@ -99,7 +100,7 @@ let answers (path, names, versions, tags) (utags : ascii list list) (own : ascii
       (match askt (UQFindTagged (n, t, f)) with
        | AStackVer (Some (s, v)) -> add ["UG"; mode; enc_str n; enc_str t; enc_str f; enc_str s; enc_str v]
        | _ -> ())) own) qfl) names) umodes;
-  let modes = [("c", (fun q -> q_cache m q)); ("f", (fun q -> q_db w q))] in
+  let modes = [("c", (fun q -> if pin_foreign then q_cache m q else q_served w m q)); ("f", (fun q -> q_db w q))] in
   Stdlib.List.iter (fun (mode, ask) ->
     Stdlib.List.iter (fun n -> Stdlib.List.iter (fun f ->
       Stdlib.List.iter (fun v ->
@@ -177,7 +178,7 @@ let handle (f : Stdlib.String.t array) : Stdlib.String.t =
           w := w';
           let crashed = Stdlib.List.exists (fun o -> o = OCrashed) ocs in
           (* every flavor of the universe is asked about, consulted by this instance or not *)
-          let ans = if a.(5) = "1" && not crashed then answers univ utags (own_tags u) u (uniq_l (fallbacks fl @ allfl)) w' m else "" in
+          let ans = if a.(5) = "1" && not crashed then answers (flag 10) univ utags (own_tags u) u (uniq_l (fallbacks fl @ allfl)) w' m else "" in
           cat "#" [cat "," (Stdlib.List.map show_outcome ocs); show_records w'; show_pickles w';
                    (if crashed then "" else show_loaded m); ans; show_urecords w']
         | _ -> failwith "bad proc") (split_sep '|' f.(5)) in
